@@ -44,6 +44,25 @@ def make_frames(rng, n):
     return out
 
 
+class _Sink:
+    def __init__(self, cb):
+        self.cb = cb
+
+    def take(self, err):
+        self.cb(err)
+
+
+class _CallableList(list):
+    """A callable that is also an empty container (bool() is False)."""
+
+    def __init__(self, cb):
+        super().__init__()
+        self.cb = cb
+
+    def __call__(self, err):
+        self.cb(err)
+
+
 def run_case(ctx, frames, damage, mode, handler, backend="file"):
     """damage: {frame_index: [bit positions within that frame]}"""
     from pyrtcm import RTCMReader
@@ -61,6 +80,22 @@ def run_case(ctx, frames, damage, mode, handler, backend="file"):
         ctx.hit("handler_errtype:" + type(err).__name__)
         events.append(("handler", "any"))  # the property fixes the error class only for raise mode
 
+    # the user's handler is any callable: a function, a bound method, a functools.partial, or a callable object that
+    # happens to be an (empty, hence falsy) container collecting errors elsewhere - chosen by the data (replayable)
+    import functools
+    import zlib
+
+    hkind = zlib.crc32(data) % 4
+    if hkind == 1:
+        user_handler = _Sink(on_error).take
+    elif hkind == 2:
+        user_handler = functools.partial(lambda tag, err: on_error(err), "x")
+    elif hkind == 3:
+        user_handler = _CallableList(on_error)
+    else:
+        user_handler = on_error
+    if handler:
+        ctx.hit(f"handler_kind:{('function', 'bound-method', 'partial', 'falsy-callable-object')[hkind]}")
     feeder = None
     if backend == "file":
         stream = doubles.RecordingStream(data, budget=3 * len(data) + 16)
@@ -79,7 +114,7 @@ def run_case(ctx, frames, damage, mode, handler, backend="file"):
     else:
         stream = io.BytesIO(data)
     with common.capture_logs("pyrtcm") as cap:
-        rdr = RTCMReader(stream, validate=1, quitonerror=mode, errorhandler=(on_error if handler else None))
+        rdr = RTCMReader(stream, validate=1, quitonerror=mode, errorhandler=(user_handler if handler else None))
         problem = None
         if mode in (0, 1):
             try:
